@@ -64,7 +64,14 @@ def _run(inp):
         out = {}
         for t, v in res.items():
             if v[0]:
-                out[t] = [True, {"message": v[1]["message"], "quote": v[1]["sgx_quote"].get_raw_data().hex()}]
+                q = v[1]["sgx_quote"]
+                rb = q.report_body
+                # the quote's numeric fields as the verify command will read them off the returned object
+                fields = {"version": q.version, "sign_type": q.sign_type, "tee_type": q.tee_type, "qe_svn": q.qe_svn,
+                          "pce_svn": q.pce_svn, "miscselect": rb.miscselect, "flags": rb.attributes.flags,
+                          "xfrm": rb.attributes.xfrm, "isvprodid": rb.isvprodid, "isvsvn": rb.isvsvn,
+                          "configsvn": rb.configsvn}
+                out[t] = [True, {"message": v[1]["message"], "quote": q.get_raw_data().hex(), "fields": fields}]
             else:
                 out[t] = [False, v[1]]
         return out
@@ -89,7 +96,19 @@ def model_input(cert, root_cert, clock_offset_s=0, clock_abs_us=None):
             links["%s|%s" % (e["name"], sb)] = sgxgen.link_valid(e, bymap[sb], now=now)
             facts["%s|%s" % (e["name"], sb)] = sgxgen.link_facts(e, bymap[sb], now=now)
         if e.get("type") == "sgx_quote":
-            values[e["name"]] = {"message": e["custom_data"], "quote": e["message"][:432 * 2]}
+            raw = bytes.fromhex(e["message"])[:432]
+            fields = None
+            if len(raw) == 432:
+                # sgx_quote_t / sgx_report_body_t, little endian, read at the documented offsets
+                import struct as _st
+                ver, st_, tee, qe, pce = _st.unpack_from("<HHIHH", raw, 0)
+                fields = {"version": ver, "sign_type": st_, "tee_type": tee, "qe_svn": qe, "pce_svn": pce,
+                          "miscselect": _st.unpack_from("<I", raw, 48 + 16)[0],
+                          "flags": _st.unpack_from("<Q", raw, 48 + 48)[0], "xfrm": _st.unpack_from("<Q", raw, 48 + 56)[0],
+                          "isvprodid": _st.unpack_from("<H", raw, 48 + 256)[0],
+                          "isvsvn": _st.unpack_from("<H", raw, 48 + 258)[0],
+                          "configsvn": _st.unpack_from("<H", raw, 48 + 260)[0]}
+            values[e["name"]] = {"message": e["custom_data"], "quote": e["message"][:432 * 2], "fields": fields}
     return {"root": "sgx_root", "targets": cert["targets"],
             "elements": [{"name": e["name"], "signed_by": e["signed_by"]} for e in els], "links": links,
             "facts": facts, "values": values}
